@@ -3,6 +3,7 @@ package props
 import (
 	"bytes"
 	"fmt"
+	"io"
 
 	"golang.org/x/text/transform"
 
@@ -177,11 +178,215 @@ func c08Octets(c *fw.Case, b []byte, class string) {
 	c.Cover("octets/" + class)
 }
 
+// long-lived transformer objects, one set per worker process: a gateway keeps its encoder/decoder, it does not
+// make one per message
+var c08Live struct {
+	dec, enc [2]transform.Transformer // [unpacked, packed]
+	scratch  []byte
+}
+
+func dirty(r *fw.Rng, n int) []byte {
+	b := make([]byte, n)
+	switch r.Intn(3) {
+	case 0:
+		for i := range b {
+			b[i] = 0xff
+		}
+	case 1:
+		for i := range b {
+			b[i] = 0xa5
+		}
+	default:
+		copy(b, r.Bytes(n))
+	}
+	return b
+}
+
+// c08Reuse: a sequence of messages (decodable ones and refused ones) through the SAME transformer objects, written
+// into destinations that are not zeroed (recycled buffers); every result must equal what the reference gives for
+// this message alone.
+func c08Reuse(c *fw.Case) {
+	r := c.R
+	tab := ref.GSM7()
+	if c08Live.dec[0] == nil || r.Chance(1, 50) {
+		c08Live.dec = [2]transform.Transformer{g7.GSM7(false).NewDecoder().Transformer, g7.GSM7(true).NewDecoder().Transformer}
+		c08Live.enc = [2]transform.Transformer{g7.GSM7(false).NewEncoder().Transformer, g7.GSM7(true).NewEncoder().Transformer}
+	}
+	n := r.Range(2, 6)
+	pat := ""
+	for m := 0; m < n; m++ {
+		// a septet sequence; one in three gets something no decoder may accept
+		l := r.Range(1, 40)
+		if r.Chance(1, 6) {
+			l = r.Pick(127, 128, 129, 146, 147, 153, 160, 161, r.Range(40, 700)) // around the 128-octet chunk of transform.String and the 140-octet payload
+		}
+		s := make([]byte, l)
+		for i := range s {
+			for {
+				s[i] = byte(r.Intn(128))
+				if s[i] != 0x1b {
+					break
+				}
+			}
+			if r.Chance(1, 8) {
+				s[i] = byte(r.Pick(0x00, 0x0d, 0x40, 0x7f, 0x20))
+			}
+		}
+		refused := r.Chance(1, 3)
+		if refused {
+			// after a decodable prefix: ESC + a code outside the extension table, or a dangling ESC at the end
+			k := r.Intn(l)
+			if r.Bool() && k+1 < l {
+				s[k], s[k+1] = 0x1b, 0x41
+			} else {
+				s[l-1] = 0x1b
+			}
+		}
+		text, decodable := tab.Decode(s)
+		packedMode := r.Intn(2)
+		wire := s
+		if packedMode == 1 {
+			wire = ref.Pack(s)
+		}
+		c.Evals(1)
+		// (1) decode through the long-lived decoder, destination dirty and larger than needed
+		dst := dirty(r, 4*len(s)+16)
+		var nd, ns int
+		var derr error
+		if !try1(c, "reused Decoder.Transform", wire, func() {
+			c08Live.dec[packedMode].Reset()
+			nd, ns, derr = c08Live.dec[packedMode].Transform(dst, append([]byte(nil), wire...), true)
+		}) {
+			return
+		}
+		// what a decoder made for this message alone says
+		fresh, _, ferr := transform.Bytes(g7.GSM7(packedMode == 1).NewDecoder(), append([]byte(nil), wire...))
+		if (derr == nil) != (ferr == nil) || (derr == nil && (string(dst[:nd]) != string(fresh) || ns != len(wire))) {
+			c.Failf("entrypoints-disagree/reused-decoder", "message %d of a sequence (%s) through one decoder object: Transform = (%q, nSrc=%d of %d, %v); a decoder made for this message alone gives (%q, %v); input %s packed=%v",
+				m, pat, dst[:nd], ns, len(wire), derr, fresh, ferr, hx(wire), packedMode == 1)
+			return
+		}
+		// the other stream entry points of golang.org/x/text on the same decoder object: String() (feeds 128-octet
+		// chunks first) and transform.Reader (feeds what it has read so far) must say what Bytes() says
+		var viaString string
+		var serr error
+		if !try1(c, "Decoder.String", wire, func() { viaString, _, serr = transform.String(c08Live.dec[packedMode], string(wire)) }) {
+			return
+		}
+		var viaReader []byte
+		var rerr error
+		if !try1(c, "transform.Reader(Decoder)", wire, func() {
+			viaReader, rerr = io.ReadAll(transform.NewReader(&dripReader{b: append([]byte(nil), wire...), n: 1 + r.Intn(200)}, c08Live.dec[packedMode]))
+		}) {
+			return
+		}
+		if (serr == nil) != (ferr == nil) || (rerr == nil) != (ferr == nil) || (ferr == nil && (viaString != string(fresh) || string(viaReader) != string(fresh))) {
+			c.Failf("entrypoints-disagree/decoder-streams", "message %d (%s), %d octets, packed=%v: Bytes = (%q, %v), String = (%q, %v), transform.Reader = (%q, %v); input %s",
+				m, pat, len(wire), packedMode == 1, fresh, ferr, viaString, serr, viaReader, rerr, hx(wire))
+			return
+		}
+		if decodable && !(packedMode == 1 && ref.EndAmbiguous(s)) && (derr != nil || string(dst[:nd]) != text) {
+			c.Failf("reused-decoder-text", "message %d (%s): septets %s (text %q) decoded through a long-lived decoder as (%q, %v)", m, pat, hx(s), text, dst[:nd], derr)
+			return
+		}
+		if !decodable && derr == nil && packedMode == 0 {
+			c.Failf("reused-decoder-accepts-invalid", "message %d (%s): septets %s are outside the alphabet but the long-lived decoder returned %q", m, pat, hx(s), dst[:nd])
+			return
+		}
+		// (2) encode the text through the long-lived encoder into a dirty destination
+		if re, ok := tab.Encode(text); decodable && ok && bytes.Equal(re, s) {
+			want := s
+			if packedMode == 1 {
+				want = ref.Pack(s)
+			}
+			out := dirty(r, len(want)+r.Range(0, 9))
+			var ne, nsrc int
+			var eerr error
+			if !try1(c, "reused Encoder.Transform", []byte(text), func() {
+				c08Live.enc[packedMode].Reset()
+				ne, nsrc, eerr = c08Live.enc[packedMode].Transform(out, []byte(text), true)
+			}) {
+				return
+			}
+			if eerr != nil || !bytes.Equal(out[:ne], want) || nsrc != len(text) {
+				c.Failf("entrypoints-disagree/reused-encoder", "message %d (%s): Encoder.Transform of %q into a destination that was not zeroed = (%s, nSrc=%d of %d, %v), reference %s (packed=%v)",
+					m, pat, text, hx(out[:ne]), nsrc, len(text), eerr, hx(want), packedMode == 1)
+				return
+			}
+			var encString string
+			var encReader []byte
+			var e3, e4 error
+			if !try1(c, "Encoder.String", []byte(text), func() { encString, _, e3 = transform.String(c08Live.enc[packedMode], text) }) {
+				return
+			}
+			if !try1(c, "transform.Reader(Encoder)", []byte(text), func() {
+				encReader, e4 = io.ReadAll(transform.NewReader(&dripReader{b: []byte(text), n: 1 + r.Intn(200)}, c08Live.enc[packedMode]))
+			}) {
+				return
+			}
+			if e3 != nil || e4 != nil || encString != string(want) || !bytes.Equal(encReader, want) {
+				c.Failf("entrypoints-disagree/encoder-streams", "message %d (%s), text %q (%d octets of UTF-8), packed=%v: reference %s, String = (%s, %v), transform.Reader = (%s, %v)",
+					m, pat, text, len(text), packedMode == 1, hx(want), hx([]byte(encString)), e3, hx(encReader), e4)
+				return
+			}
+			// the recycled-buffer idiom: transform.Append(t, buf[:0], src)
+			if cap(c08Live.scratch) < len(want)+8 {
+				c08Live.scratch = dirty(r, 2*len(want)+64)
+			}
+			var app []byte
+			if !try1(c, "transform.Append", []byte(text), func() {
+				app, _, eerr = transform.Append(c08Live.enc[packedMode], c08Live.scratch[:0], []byte(text))
+			}) {
+				return
+			}
+			if eerr != nil || !bytes.Equal(app, want) {
+				c.Failf("entrypoints-disagree/reused-encoder-append", "message %d (%s): transform.Append(encoder, recycled[:0], %q) = (%s, %v), reference %s (packed=%v)", m, pat, text, hx(app), eerr, hx(want), packedMode == 1)
+				return
+			}
+			if cap(app) >= len(app) {
+				c08Live.scratch = app[:cap(app)] // keep recycling the same (now dirty) buffer
+			}
+			// a destination that is too small is reported, and the retry with room gives the same octets
+			if len(want) > 1 {
+				small := dirty(r, r.Intn(len(want)))
+				var e2 error
+				var n2 int
+				try1(c, "Encoder.Transform short dst", []byte(text), func() { n2, _, e2 = c08Live.enc[packedMode].Transform(small, []byte(text), true) })
+				if e2 == nil && !bytes.Equal(small[:n2], want) {
+					c.Failf("reused-encoder-short-dst", "Transform into %d octets (needs %d) returned no error and %s", len(small), len(want), hx(small[:n2]))
+					return
+				}
+				big := dirty(r, len(want)+4)
+				try1(c, "Encoder.Transform retry", []byte(text), func() { n2, _, e2 = c08Live.enc[packedMode].Transform(big, []byte(text), true) })
+				if e2 != nil || !bytes.Equal(big[:n2], want) {
+					c.Failf("entrypoints-disagree/reused-encoder-retry", "message %d (%s): the retry after a short destination gives (%s, %v), reference %s", m, pat, hx(big[:n2]), e2, hx(want))
+					return
+				}
+			}
+		}
+		if decodable {
+			// the same for the decoder: short destination, then the retry
+			small := dirty(r, r.Intn(len(text)+1))
+			var n2 int
+			var e2 error
+			try1(c, "Decoder.Transform short dst", wire, func() { n2, _, e2 = c08Live.dec[packedMode].Transform(small, append([]byte(nil), wire...), true) })
+			big := dirty(r, len(text)+8)
+			try1(c, "Decoder.Transform retry", wire, func() { n2, _, e2 = c08Live.dec[packedMode].Transform(big, append([]byte(nil), wire...), true) })
+			if !(packedMode == 1 && ref.EndAmbiguous(s)) && (e2 != nil || string(big[:n2]) != text) {
+				c.Failf("entrypoints-disagree/reused-decoder-retry", "message %d (%s): the retry after a short destination decodes %s as (%q, %v), reference %q", m, pat, hx(wire), big[:n2], e2, text)
+				return
+			}
+		}
+		pat += map[bool]string{true: "x", false: "v"}[refused] + map[int]string{0: "u", 1: "p"}[packedMode]
+	}
+	c.Cover("reuse/" + pat[:4])
+}
+
 func init() {
 	fw.Register(&fw.Prop{
 		ID:        "C08",
 		Technique: "runtime monitor: exhaustive differential oracle against a code-point-keyed TS 23.038 table and a bit-stream definition of septet packing; cross-entry-point agreement monitor",
-		Rule: "alphabet: all 1,114,112 code points and all 65,536 septet pairs; packing: all septet sequences of length 0..3, all sequences of length <= 8 (quick: <= 6) over {00,01,0d,1b,3f,40,7f}, block-boundary triples for lengths 1..40, random sequences to 2000 septets, single-bit wiring for lengths 0..64; arbitrary octet strings through Unpack; " +
+		Rule: "alphabet: all 1,114,112 code points and all 65,536 septet pairs; packing: all septet sequences of length 0..3, all sequences of length <= 8 (quick: <= 6) over {00,01,0d,1b,3f,40,7f}, block-boundary triples for lengths 1..40, random sequences to 2000 septets, single-bit wiring for lengths 0..64; arbitrary octet strings through Unpack; sequences of decodable and refused messages through long-lived encoder/decoder objects writing into destinations that are not zeroed (Transform, transform.Append into a recycled buffer, short destination then retry), and the same messages through String() and transform.Reader fed in pieces, lengths around the 128-octet chunk size and the 140-octet payload; " +
 			"distinct_nontrivial = distinct (stage, class) keys where class = code-point block / first-septet / length / boundary position, each judged by the reference",
 		Assumptions: []string{
 			"spec/gsm7_table.json (137 characters by code point, written from 3GPP TS 23.038 §6.2.1/§6.2.1.1) is trusted base; the standard is not in /repo/doc",
@@ -397,6 +602,7 @@ func init() {
 					c08Octets(c, b, fmt.Sprintf("octets/len%%7=%d", len(b)%7))
 				},
 			},
+			{Name: "reuse", N: q(60000, 20000000), Run: c08Reuse},
 			{
 				Name: "wiring", Exhaustive: "single-bit wiring: every bit of every septet sequence length 0..64 set alone",
 				N: func(fw.Tier) uint64 { return 65 },
